@@ -12,6 +12,8 @@ const CARRIERS: [&str; 9] = ["vec", "option", "map-value", "map-key", "box", "ar
 const TYPE_POSITIONS: [&str; 9] =
     ["struct-field", "newtype-struct", "variant-payload", "variant-field", "alias", "serialized-as-field", "serialized-as-struct", "serialized-as-alias", "const-type"];
 const SKIPS: [Skip; 3] = [Skip::No, Skip::Serde, Skip::Typeshare];
+/// top level; nested modules; statements of a function body; a block expression (`const _: () = { … };`); a function inside a module
+const PLACEMENTS: [&[&str]; 5] = [&[], &["a", "b"], &["fn:handler"], &["const:"], &["a", "fn:setup"]];
 
 fn carry(c: &str, t: Ty) -> Ty {
     match c {
@@ -29,6 +31,8 @@ fn carry(c: &str, t: Ty) -> Ty {
 
 #[derive(Clone, Debug)]
 pub struct TypeCase {
+    /// where the items of the program are declared (index into `PLACEMENTS`)
+    pub placement: usize,
     pub bad: &'static str,
     pub chain: Vec<&'static str>,
     pub position: &'static str,
@@ -106,7 +110,13 @@ pub fn type_program(c: &TypeCase) -> (File, File) {
         "const-type" => Some(Item::new("OUTER", IKind::Const { ty: ty.clone(), expr: "1".into() })),
         _ => None,
     };
-    (mk(Some(member), Some(variant), item), mk(None, None, None))
+    let place = |mut f: File| {
+        for it in &mut f.items {
+            it.mods = PLACEMENTS[c.placement].iter().map(|s| s.to_string()).collect();
+        }
+        f
+    };
+    (place(mk(Some(member), Some(variant), item)), place(mk(None, None, None)))
 }
 
 fn parse_errors(src: &str) -> Result<Vec<String>, String> {
@@ -137,7 +147,7 @@ pub fn check_type_case(c: &TypeCase, choices: &[u32], acc: &mut Acc) {
     }
     let outer = c.chain.first().copied().unwrap_or("none");
     let inner = c.chain.last().copied().unwrap_or("none");
-    let shape = format!("construct={}|pos={}|depth={}|outer={outer}|inner={inner}", c.bad, c.position, c.chain.len());
+    let shape = format!("construct={}|pos={}|depth={}|outer={outer}|inner={inner}{}", c.bad, c.position, c.chain.len(), if c.placement == 0 { String::new() } else { format!("|declared-in={}", PLACEMENTS[c.placement].join("/")) });
     let detail = |extra: serde_json::Value| json!({"choices": choices, "construct": c.bad, "carrier_chain": c.chain, "position": c.position, "skip": format!("{:?}", c.skip), "source": src, "observation": extra});
     match parse_errors(&src) {
         Err(e) => {
@@ -186,7 +196,9 @@ fn gen_type_case(ch: &mut Chooser, max_depth: usize) -> TypeCase {
     let depth = ch.choose("depth", max_depth + 1);
     let chain: Vec<&'static str> = (0..depth).map(|_| *ch.pick("carrier", &CARRIERS)).collect();
     let skip = *ch.pick("skip", &SKIPS);
-    TypeCase { bad, chain, position, skip }
+    // where the items are declared: for the short chains
+    let placement = if depth <= 1 { ch.choose("declared_in", PLACEMENTS.len()) } else { 0 };
+    TypeCase { placement, bad, chain, position, skip }
 }
 
 // ---------- structural constructs ----------
@@ -426,7 +438,7 @@ pub fn run(args: &[String]) -> i32 {
             report::threads(),
             u64::MAX,
         );
-        merge(&mut rep, "unsupported_types", accs, &stats, json!({"constructs": BAD_TYPES, "carriers": CARRIERS, "carrier_chain_depth": format!("0..={max_depth}"), "positions": TYPE_POSITIONS, "skip_states": 3}));
+        merge(&mut rep, "unsupported_types", accs, &stats, json!({"constructs": BAD_TYPES, "carriers": CARRIERS, "carrier_chain_depth": format!("0..={max_depth}"), "positions": TYPE_POSITIONS, "skip_states": 3, "items_declared_in (chains of length ≤ 1)": ["top level", "mod a::b", "fn body", "block expression of a const", "fn inside a module"]}));
     }
     // deeper chains with at most two distinct constructors (stated cap)
     if rep.thorough() {
@@ -442,7 +454,7 @@ pub fn run(args: &[String]) -> i32 {
                 let chain: Vec<&'static str> = (0..depth).map(|i| if pattern & (1 << i) != 0 { b } else { a }).collect();
                 let bad = *ch.pick("construct", &["u64", "(u32, String)"]);
                 let position = *ch.pick("position", &["struct-field", "alias", "variant-payload"]);
-                let c = TypeCase { bad, chain, position, skip: Skip::No };
+                let c = TypeCase { placement: 0, bad, chain, position, skip: Skip::No };
                 check_type_case(&c, &ch.choices(), acc);
             },
             Mode::Product,
